@@ -993,12 +993,16 @@ fn union_single_and_range(
             for c in s1.chars() {
                 indicies.insert(find_char_index(chars, c)?);
             }
-            for i in min_i..max_i {
+            // the range includes its upper end
+            for i in min_i..=max_i {
                 indicies.insert(i);
             }
             let mut indices = indicies.iter().collect::<Vec<_>>();
             indices.sort();
-            let mut last = indices[0];
+            // an empty string united with an empty range: nothing to fold
+            let Some(mut last) = indices.first().copied() else {
+                return Ok(None);
+            };
             let mut contiguous = true;
             for v in indices[1..].iter() {
                 if **v != last + 1 {
